@@ -1,0 +1,5 @@
+//go:build !verif
+
+package loader
+
+func verifPhase(*Options, string) {}
